@@ -5,6 +5,10 @@ from .core import relloc, norm, Broken
 VERIF = os.path.dirname(os.path.dirname(os.path.dirname(os.path.abspath(__file__))))
 
 
+class DuplicateRule(Exception):
+    pass
+
+
 class Ctx:
     def __init__(self, pid, tier, seed=0):
         self.pid, self.tier, self.seed = pid, tier, seed
@@ -23,6 +27,8 @@ class Ctx:
     # ---- rule registration
     def rule(self, rid, kind, text, floor=1):
         r = self.rules.get(rid)
+        if r is None and getattr(self, 'dedupe', False) and any(o['rule'] == text for o in self.rules.values()):
+            raise DuplicateRule(rid)         # the same rule is already claimed under another id of this check (props/shared.built_on)
         if r is None:
             r = self.rules[rid] = {'kind': kind, 'rule': text, 'floor': floor, 'sites': 0, 'obligations': 0, 'discharged': 0,
                                    'paths': 0, 'instances': set(), 'samples': [], 'configs': set()}
